@@ -301,7 +301,8 @@ class LinearPolynomial(BaseDeferred):
         new_coeffs = []
         new_constant_term = self.constant_term
 
-        for key, value in self.coeffs.items():
+        for variable, value in self.coeffs.items():
+            key = variable
             with try_compute:
                 key = key.wait()
             if isinstance(key, BaseDeferred):
@@ -311,7 +312,9 @@ class LinearPolynomial(BaseDeferred):
                 new_coeffs += [(key1, value1 * value) for key1, value1 in key.coeffs.items()]
                 new_constant_term += key.constant_term * value
             elif isinstance(key, BaseDeferred):
-                new_coeffs.append((key, value))
+                # A promise that is settled with a not yet known value stays
+                # the variable (see Promise.get_current_best_estimate)
+                new_coeffs.append((variable if isinstance(variable, Promise) else key, value))
             else:
                 new_constant_term += key * value
 
@@ -420,6 +423,16 @@ class Promise(BaseDeferred):
 
     def get_current_best_estimate(self):
         if self.settled:
-            return self.value
+            value = self.value
+            if isinstance(value, BaseDeferred):
+                # Settled with a value that is itself not known yet (say, a
+                # link base that mentions a label defined further down). Keep
+                # the promise as the variable: substituting the unevaluated
+                # value would make other occurrences of this promise look like
+                # a different unknown, and they would no longer cancel out.
+                value = value.get_current_best_estimate()
+                if isinstance(value, BaseDeferred):
+                    return self
+            return value
         else:
             return self
